@@ -6,6 +6,7 @@ package smparser
 
 import (
 	"github.com/fiorix/go-diameter/v4/diam"
+	"github.com/fiorix/go-diameter/v4/diam/avp"
 	"github.com/fiorix/go-diameter/v4/diam/datatype"
 )
 
@@ -41,7 +42,12 @@ func (cer *CER) Parse(m *diam.Message, localRole Role) (failedAVP *diam.AVP, err
 		// An AVP with this code under a vendor id, which the dictionary
 		// does not define, is decoded as datatype.Unknown.
 		if v, ok := cer.InbandSecurityID.Data.(datatype.Unsigned32); !ok || v != 0 {
-			return nil, ErrNoCommonSecurity
+			// The peer may list several mechanisms, in any order: it only
+			// requires in-band security if NO_INBAND_SECURITY is not one
+			// of them.
+			if !offersNoInbandSecurity(m) {
+				return nil, ErrNoCommonSecurity
+			}
 		}
 	}
 	app := &Application{
@@ -54,6 +60,20 @@ func (cer *CER) Parse(m *diam.Message, localRole Role) (failedAVP *diam.AVP, err
 	}
 	cer.appID = app.ID()
 	return nil, nil
+}
+
+// offersNoInbandSecurity tells whether NO_INBAND_SECURITY (0) is among
+// the Inband-Security-Id AVPs of the message.
+func offersNoInbandSecurity(m *diam.Message) bool {
+	for _, a := range m.AVP {
+		if a.Code != avp.InbandSecurityID || a.VendorID != 0 {
+			continue
+		}
+		if v, ok := a.Data.(datatype.Unsigned32); ok && v == 0 {
+			return true
+		}
+	}
+	return false
 }
 
 // sanityCheck ensures mandatory AVPs are present.
